@@ -13,15 +13,18 @@ Entities (all six hooks defined on every class; every hook writes an event to th
         K -> P -> P -> P ..., trees and diamonds of unsaved principals exist and are acyclic)
     K   auto pk, tag (unique handle chosen by the harness, never changed), a, b, h, parent, alt;  K2(K) adds c
     T   explicit pk, a, h, owners=Set(P)
+    every class also has m=Optional(Json) (a dict, default {}) and arr=Optional(IntArray) (default []): values that Pony hands
+    out as tracked objects, so that program and hooks can change them IN PLACE (m['n'] = v, m['trail'].append(v),
+    arr.append(v)) as well as by assignment
 
 The oracle never looks into Pony: it reads the log (statement text + parameters + lastrowid, hook events,
 operation begin/end markers) and the tables through plain sqlite3 cursors.
 """
-import os, re, sqlite3, copy
+import os, re, sqlite3, copy, json
 
 HOOKS = ('before_insert', 'before_update', 'before_delete', 'after_insert', 'after_update', 'after_delete')
 CLASSES = ('P', 'K', 'K2', 'T')
-BODIES = ('nothing', 'read', 'readcoll', 'mod_self', 'mod_other', 'create')
+BODIES = ('nothing', 'read', 'readcoll', 'mod_self', 'mod_other', 'create', 'mod_json')
 ENTITY_TABLES = {'p': 'P', 'k': 'K', 't': 'T'}
 KIND_OF_HOOK = {'before_insert': ('B', 'insert'), 'before_update': ('B', 'update'), 'before_delete': ('B', 'delete'),
                 'after_insert': ('A', 'insert'), 'after_update': ('A', 'update'), 'after_delete': ('A', 'delete')}
@@ -167,19 +170,37 @@ class Model(object):
 
     def tables(self):
         return {
-            'p': sorted([pk, r['a'], r['b'], r['h'], r['up']] for pk, r in self.P.items()),
-            't': sorted([pk, r['a'], r['h']] for pk, r in self.T.items()),
-            'k': sorted([tag, r['cls'], r['a'], r['b'], r['h'], r['c'], r['parent'], r['alt']] for tag, r in self.K.items()),
+            'p': sorted([pk, r['a'], r['b'], r['h'], r['up']] + _jcols(r) for pk, r in self.P.items()),
+            't': sorted([pk, r['a'], r['h']] + _jcols(r) for pk, r in self.T.items()),
+            'k': sorted([tag, r['cls'], r['a'], r['b'], r['h'], r['c'], r['parent'], r['alt']] + _jcols(r)
+                        for tag, r in self.K.items()),
             'p_t': sorted([a, b] for a, b in self.links),
         }
 
 
+def _canon(value):
+    return None if value is None else json.dumps(value, sort_keys=True)
+
+
+def _jcols(row):
+    """the Json and the array column of a model row in canonical text form (Pony's defaults: {} and [])"""
+    return [_canon(row.get('m', {})), _canon(row.get('arr', []))]
+
+
+def _jrow(r):
+    """last two columns of a table row are JSON text (sqlite stores Json and arrays as text): canonical form"""
+    r = list(r)
+    for n in (-2, -1):
+        if r[n] is not None: r[n] = _canon(json.loads(r[n]))
+    return r
+
+
 def read_tables(cursor):
     out = {}
-    out['p'] = sorted(list(r) for r in cursor.execute('SELECT "id", "a", "b", "h", "up" FROM "p"').fetchall())
-    out['t'] = sorted(list(r) for r in cursor.execute('SELECT "id", "a", "h" FROM "t"').fetchall())
-    out['k'] = sorted(list(r) for r in cursor.execute(
-        'SELECT "tag", "classtype", "a", "b", "h", "c", "parent", "alt" FROM "k"').fetchall())
+    out['p'] = sorted(_jrow(r) for r in cursor.execute('SELECT "id", "a", "b", "h", "up", "m", "arr" FROM "p"').fetchall())
+    out['t'] = sorted(_jrow(r) for r in cursor.execute('SELECT "id", "a", "h", "m", "arr" FROM "t"').fetchall())
+    out['k'] = sorted(_jrow(r) for r in cursor.execute(
+        'SELECT "tag", "classtype", "a", "b", "h", "c", "parent", "alt", "m", "arr" FROM "k"').fetchall())
     out['p_t'] = sorted(list(r) for r in cursor.execute('SELECT "p_id", "t_id" FROM "p_t"').fetchall())
     return out
 
@@ -231,22 +252,23 @@ def _mk_hook(name):
 
 
 def define_entities(db):
-    from pony.orm import PrimaryKey, Required, Optional, Set
+    from pony.orm import PrimaryKey, Required, Optional, Set, Json, IntArray
     hooks = dict((name, _mk_hook(name)) for name in HOOKS)
 
     P = type('P', (db.Entity,), dict(hooks,
         _table_='p', id=PrimaryKey(int), a=Required(int), b=Optional(int), h=Optional(int),
+        m=Optional(Json), arr=Optional(IntArray),
         kids=Set('K', reverse='parent'), alts=Set('K', reverse='alt'),
         up=Optional('P', reverse='downs', column='up'), downs=Set('P', reverse='up'),
         tags=Set('T', table='p_t', column='t_id')))
     K = type('K', (db.Entity,), dict(hooks,
         _table_='k', id=PrimaryKey(int, auto=True), tag=Required(int, unique=True),
-        a=Required(int), b=Optional(int), h=Optional(int),
+        a=Required(int), b=Optional(int), h=Optional(int), m=Optional(Json), arr=Optional(IntArray),
         parent=Required('P', column='parent'), alt=Optional('P', column='alt')))
     # the subclass overrides every hook with its own function objects
     K2 = type('K2', (K,), dict(dict((name, _mk_hook(name)) for name in HOOKS), c=Optional(int)))
     T = type('T', (db.Entity,), dict(hooks,
-        _table_='t', id=PrimaryKey(int), a=Required(int), h=Optional(int),
+        _table_='t', id=PrimaryKey(int), a=Required(int), h=Optional(int), m=Optional(Json), arr=Optional(IntArray),
         owners=Set('P', column='p_id')))
     return {'P': P, 'K': K, 'K2': K2, 'T': T}
 
@@ -346,6 +368,36 @@ class Runner(object):
         if not live: return None
         return live[sel % len(live)]
 
+    # ---- tracked values (Json dict / int array) ------------------------------------------------------
+    def edit_tracked(self, obj, handle, kind, val):
+        """kind 0: m['n'] = val; 1: m['trail'] gets val (key set the first time, nested list append afterwards);
+        2: arr.append(val)  -- all three IN PLACE on the tracked value Pony returns;  3: m re-assigned as a whole.
+        The reference model row is changed the same way."""
+        row = self.cur.row(handle)
+        m, arr = row.setdefault('m', {}), row.setdefault('arr', [])
+        if kind == 0:
+            obj.m['n'] = val
+            m['n'] = val
+        elif kind == 1:
+            if 'trail' in m:
+                obj.m['trail'].append(val)
+                m['trail'].append(val)
+            else:
+                obj.m['trail'] = [val]
+                m['trail'] = [val]
+        elif kind == 2:
+            obj.arr.append(val)
+            arr.append(val)
+        else:
+            new = dict(copy.deepcopy(m), r=val)
+            obj.m = copy.deepcopy(new)
+            row['m'] = new
+        if kind != 3:
+            self.stats.add('inplace_edit')
+            if self.last_write.get(handle, -1) > self.last_stmt.get(handle, -1) and handle in self.inserted:
+                self.stats.add('inplace_edit_on_pending_update')
+        self.touch(handle)
+
     # ---- hook dispatch ---------------------------------------------------------------------------
     def on_hook(self, obj, name):
         cls = type(obj).__name__
@@ -431,6 +483,25 @@ class Runner(object):
             self.cur.row(target)['h'] = val
             self.touch(target)
             return 'mod_other'
+        if body == 'mod_json':
+            # arg % 4: kind of edit (see edit_tracked); (arg // 4) % 2: on self / on another live object
+            if (arg // 4) % 2:
+                target = self.pick(None, arg // 8, exclude=handle)
+                if target is None: return None
+                tobj = self.obj(target)
+            else:
+                if deleting or not self.cur.is_live(handle): return None
+                target, tobj = handle, obj
+            self.budget -= 1
+            val, kind = self.new_val(), arg % 4
+            self.log({'t': 'write', 'by': name, 'obj': list(target), 'attr': 'arr' if kind == 2 else 'm', 'kind': kind, 'value': val})
+            if name.startswith('after_'):
+                row = self.cur.row(target)
+                self.after_effects.append(('set', target, 'm', copy.deepcopy(row.get('m', {}))))
+                self.after_effects.append(('set', target, 'arr', list(row.get('arr', []))))
+            if kind != 3 and name == 'before_update' and target == handle: self.stats.add('inplace_edit_in_before_update')
+            self.edit_tracked(tobj, target, kind, val)
+            return 'mod_json'
         if body == 'create':
             self.budget -= 1
             which = arg % 3
@@ -557,9 +628,12 @@ class Runner(object):
         if kind == 'new_p':
             up = self.pick('P', j) if f else None          # only an older P: reference chains stay acyclic
             pk = self.new_id()
-            if up is not None: self.registry[('P', pk)] = E['P'](id=pk, a=v, b=w, up=self.obj(up))
-            else: self.registry[('P', pk)] = E['P'](id=pk, a=v, b=w)
+            kw = dict(id=pk, a=v, b=w)
+            if up is not None: kw['up'] = self.obj(up)
+            if w is not None: kw.update(m={'n': w, 'trail': []}, arr=[w])      # otherwise Pony's defaults {} and []
+            self.registry[('P', pk)] = E['P'](**kw)
             cur.P[pk] = {'a': v, 'b': w, 'h': None, 'up': up and up[1]}
+            if w is not None: cur.P[pk].update(m={'n': w, 'trail': []}, arr=[w])
             if up is not None: self.stats.add('p_chain')
         elif kind == 'new_t':
             pk = self.new_id()
@@ -575,9 +649,11 @@ class Runner(object):
                 kw = dict(tag=tag, a=v, b=w, parent=self.obj(par))
                 if alt is not None: kw['alt'] = self.obj(alt)
                 if sub: kw['c'] = v
+                if w is not None: kw.update(m={'n': w, 'trail': [w]}, arr=[w, v])
                 self.registry[('K', tag)] = (E['K2'] if sub else E['K'])(**kw)
                 cur.K[tag] = {'cls': 'K2' if sub else 'K', 'a': v, 'b': w, 'h': None, 'c': v if sub else None,
                               'parent': par[1], 'alt': alt and alt[1]}
+                if w is not None: cur.K[tag].update(m={'n': w, 'trail': [w]}, arr=[w, v])
         elif kind in ('set', 'same', 'setkw'):
             h = self.pick(None, i)
             if h is None: done = False
@@ -601,6 +677,20 @@ class Runner(object):
                     else: kw['h'] = w
                     o.set(**kw)
                     row.update(kw)
+        elif kind in ('jedit', 'jassign'):
+            h = self.pick(None, i)
+            if h is None: done = False
+            else:
+                marker['target'] = list(h)
+                o = self.obj(h)
+                if kind == 'jedit':
+                    self.edit_tracked(o, h, j % 3, v)
+                elif f:
+                    o.arr = [v] if w is None else [v, w]
+                    cur.row(h)['arr'] = [v] if w is None else [v, w]
+                    self.touch(h)
+                else:
+                    self.edit_tracked(o, h, 3, v)
         elif kind == 'move':
             k, p = self.pick('K', i), self.pick('P', j)
             if k is None or p is None: done = False
@@ -827,7 +917,7 @@ def judge(events):
             info['hooks'] += 1
             open_hooks.append((typ, handle))
             info['trace'].append('%s%s:%s:%s' % (typ, kind[0], ev['cls'], ev.get('did') or '-'))
-            if ev.get('did') in ('mod_self', 'mod_other', 'create_k', 'create_p', 'create_t'):
+            if ev.get('did') in ('mod_self', 'mod_other', 'mod_json', 'create_k', 'create_p', 'create_t'):
                 info['effects'].append((typ, kind, ev['did']))
         elif t == 'hook_end':
             if open_hooks: open_hooks.pop()
